@@ -276,6 +276,47 @@ def key_of(kind, diffs, rec, obs):
     return f"multisolve[{kind}] {d} spec={rec['res']['kind']} code={obs.get('res') if obs else '-'} {' '.join(feats)}".strip()
 
 
+def run_twin_with_options(rec, kind, extra):
+    """solve() against the explicit per-period loop under further options (offset, tol, catch_first_error): the
+    specification's summaries do not model these, so only the twin equality of the property is checked."""
+    cfg = rec['cfg']
+    L = cfg['L']
+    if rec['res']['kind'] in ('ValueError', 'KeyError') or L == 0:
+        return []
+    m, span = build(cfg, kind)
+    s_lab, ok1 = label_of(kind, span, L, cfg['start'])
+    e_lab, ok2 = label_of(kind, span, L, cfg['end'])
+    if not (ok1 and ok2):
+        return []
+    kw = dict(opts_of(cfg), **extra)
+    if s_lab is not None:
+        kw['start'] = s_lab
+    if e_lab is not None:
+        kw['end'] = e_lab
+    k1, v1 = call(lambda: m.solve(**kw))
+    tw, _ = build(cfg, kind)
+    kw_t = dict(opts_of(cfg), **extra)
+    flags, k2 = [], 'returned'
+    for p in rec['range']:
+        kk, vv = call(lambda: tw.solve_t(p - 1, **kw_t))
+        if kk != 'returned':
+            k2 = kk
+            break
+        flags.append(vv)
+    diffs = []
+    if k1 != k2:
+        diffs.append('twin-options-res')
+    elif k1 == 'returned' and list(v1[2]) != flags:
+        diffs.append('twin-options-flags')
+    bad = same_state(state(m), state(tw))
+    if bad is not None:
+        diffs.append(f'twin-options-state:{bad}')
+    return diffs
+
+
+EXTRA_OPTIONS = [dict(offset=-1), dict(offset=1, tol=2.0), dict(catch_first_error=False, tol=1e-10), dict(offset=-1, catch_first_error=False)]
+
+
 def main():
     payload = json.load(open(sys.argv[1]))
     kinds = payload.get('kinds') or KINDS
@@ -292,6 +333,13 @@ def main():
                 out['skipped'] += 1
                 continue
             out['n'] += 1
+            if (idx + len(kind)) % 3 == 0:
+                extra = EXTRA_OPTIONS[(idx // 3) % len(EXTRA_OPTIONS)]
+                d3 = run_twin_with_options(rec, kind, extra)
+                out['n'] += 1
+                if d3:
+                    diffs = diffs + d3
+                    obs = dict(obs or {}, extra_options=extra)
             cfg = rec['cfg']
             tk = (kind, cfg['L'], cfg['lags'], cfg['leads'], cfg['min'], cfg['max'], cfg['errors'], cfg['failures'], json.dumps(cfg['fault']))
             if tk not in seen_twin and cfg['min'] <= cfg['max']:
